@@ -396,13 +396,13 @@ func Object(t *rapid.T, vi int) (spec.Assignment, string) {
 			}
 		}
 	case "all-modified":
-		for _, mk := range mod {
-			m := v.Metric(mk)
-			a[mk] = pick(t, mk, m.Vals[1:])
+		for _, b := range spec.OverridableOrder(v) { // fixed order: draws must not depend on map iteration
+			m := v.Metric(mod[b])
+			a[m.Abv] = pick(t, m.Abv, m.Vals[1:])
 		}
 	case "no-modified":
-		for _, mk := range mod {
-			a[mk] = v.ND
+		for _, b := range spec.OverridableOrder(v) {
+			a[mod[b]] = v.ND
 		}
 	}
 	return a, p
